@@ -158,6 +158,18 @@ func New(filename string, src io.Reader) (*Lexer, error) {
 // NextToken scans the input stream until it recognizes a valid token, which it then returns.
 // If the end of the input is reached, it returns an io.EOF error.
 func (l *Lexer) NextToken() (lexer.Token, error) {
+	// Whitespaces, newlines, and comments are passed over in a loop, not by recursion,
+	// so that the call stack does not grow with the length of a run of them.
+	for {
+		if token, skipped, err := l.scanToken(); !skipped {
+			return token, err
+		}
+	}
+}
+
+// scanToken scans the next token of the input stream, including those that are not returned to the caller.
+// The second result tells whether the token is one of them (whitespace, newline, or comment) and has been skipped.
+func (l *Lexer) scanToken() (lexer.Token, bool, error) {
 	for curr, next := 0, 0; ; curr = next {
 		// Read the next character from the input stream.
 		r, err := l.in.Next()
@@ -169,7 +181,7 @@ func (l *Lexer) NextToken() (lexer.Token, error) {
 				return l.evalToken(curr)
 			}
 
-			return lexer.Token{}, err
+			return lexer.Token{}, false, err
 		}
 
 		// Keep running the DFA through the input symbols.
@@ -186,18 +198,18 @@ func (l *Lexer) NextToken() (lexer.Token, error) {
 
 // evalToken evaluates the final state of the DFA and returns the recognized token.
 // Whitespaces, newlines, and comments are skipped, and an invalid final state results in an error.
-func (l *Lexer) evalToken(state int) (lexer.Token, error) {
+func (l *Lexer) evalToken(state int) (lexer.Token, bool, error) {
 	// Evaluate the final state of the DFA.
 	token := l.evalDFA(state)
 
 	switch token.Terminal {
 	case ERR:
-		return lexer.Token{}, errors.New(token.Lexeme)
+		return lexer.Token{}, false, errors.New(token.Lexeme)
 	case WS, EOL, COMMENT:
 		// Skip whitespaces, newlines, and comments.
-		return l.NextToken()
+		return lexer.Token{}, true, nil
 	default:
-		return token, nil
+		return token, false, nil
 	}
 }
 
